@@ -2,8 +2,21 @@
 
 package p2p
 
+import (
+	"time"
+
+	"github.com/aergoio/aergo/v2/types"
+)
+
 // VerifC17State exposes the status (0 waiting, 1 canceled, 2 finished) and the number of blocks
 // collected so far of a BlocksChunkReceiver (C17 harness).
 func (br *BlocksChunkReceiver) VerifC17State() (status int, offset int) {
 	return int(br.status), br.offset
 }
+
+// VerifC17Expire moves the receiver's time limit into the past (the TTL elapses in the middle of an
+// exchange).
+func (br *BlocksChunkReceiver) VerifC17Expire() { br.timeout = time.Now().Add(-time.Hour) }
+
+// VerifC17Got returns the blocks accepted so far.
+func (br *BlocksChunkReceiver) VerifC17Got() []*types.Block { return br.got[:br.offset] }
